@@ -231,6 +231,13 @@ def check(spec, ctx):
     tup = list(match_geometries(tuple(src), tuple(tgt), time_buffer=tb, freq_buffer=fb))
     if tup != out:
         ctx.fail("match_geometries on tuples differs from the call on lists", spec, tup, out, kind="tuple_inputs")
+    from vf.core import SeqView
+    import collections as _c
+
+    for how, S in (("a custom Sequence", SeqView), ("deques", _c.deque)):
+        alt = list(match_geometries(S(src), S(tgt), time_buffer=tb, freq_buffer=fb))
+        if alt != out:
+            ctx.fail(f"match_geometries on {how} differs from the call on lists", spec, alt, out, kind="sequence_inputs")
     if spec["src"] == spec["tgt"]:
         same = list(match_geometries(src, src, time_buffer=tb, freq_buffer=fb))
         if same != out:
